@@ -195,6 +195,19 @@ bool File::isEOF()
 	return valid && feof(stream);
 }
 
+// Check that a length that was read from the file does not exceed what is left of the file
+static bool fitsInFile(FILE* stream, unsigned long len)
+{
+	long cur = ftell(stream);
+	if (cur < 0) return false;
+	if (fseek(stream, 0, SEEK_END) != 0) return false;
+	long end = ftell(stream);
+	if (fseek(stream, cur, SEEK_SET) != 0) return false;
+	if (end < cur) return false;
+
+	return len <= (unsigned long) (end - cur);
+}
+
 // Read an unsigned long value; warning: not thread safe without locking!
 bool File::readULong(unsigned long& value)
 {
@@ -228,6 +241,12 @@ bool File::readByteString(ByteString& value)
 	}
 
 	// Read the byte string from the file
+	// A corrupt length must not make us allocate more than the file can hold
+	if (!fitsInFile(stream, len))
+	{
+		return false;
+	}
+
 	value.resize(len);
 
 	if (len == 0)
@@ -412,6 +431,12 @@ bool File::readString(std::string& value)
 	}
 
 	// Read the string from the file
+	// A corrupt length must not make us allocate more than the file can hold
+	if (!fitsInFile(stream, len))
+	{
+		return false;
+	}
+
 	value.resize(len);
 
 	if (fread(&value[0], 1, len, stream) != len)
